@@ -63,7 +63,15 @@ var f11 = []rstmt{
 	eref("(a -> b)[*]: g", nil, P("a"), P("b"), false, true, -1, "label", "g"),
 	eref("(a -> b)[0].style.stroke: red", nil, P("a"), P("b"), false, true, 0, "stroke", "red"),
 	eref("(A -> B)[1]: u", nil, P("A"), P("B"), false, true, 1, "label", "u"),
+	// references written underscore-relative from inside a container
+	edge("c.a -> b", nil, P("c", "a"), P("b"), false, true, nil),
+	within(eref("c: {(a -> _.b)[0]: null}", nil, P("c", "a"), P("b"), false, true, 0, "null", ""), "c"),
+	within(eref("c: {(a -> _.b)[0]: s}", nil, P("c", "a"), P("b"), false, true, 0, "label", "s"), "c"),
+	within(eref("c: {(_.a -> _.b)[0]: null}", nil, P("a"), P("b"), false, true, 0, "null", ""), "c"),
+	within(eref("c: {(_.a -> _.b)[1]: r}", nil, P("a"), P("b"), false, true, 1, "label", "r"), "c"),
 }
+
+func within(s rstmt, cont ...string) rstmt { s.Ensure = cont; return s }
 
 var stmtIndex = map[string]rstmt{}
 
